@@ -51,7 +51,7 @@ def loc_dist(kinds):
         elif k in ("exponential", "poisson"):
             d["rate"] = draw(q(0.5, 4))
         elif k == "cluster":
-            d["n_cluster"] = draw(st.integers(1, 5))
+            d["n_cluster"] = draw(st.one_of(st.integers(1, 5), st.integers(2, 7)))
         elif k == "mixed":
             d["n_cluster_mix"] = draw(st.integers(1, 3))
         elif k == "gaussian_mixture":
@@ -65,9 +65,11 @@ def loc_dist(kinds):
     return s()
 
 
+# (the clamping samplers cluster / mixed / mix_distribution carry double weight: their range violations are rare events
+#  per node, see the `samplers` sub of C18 which drives the sampler classes directly)
 LOC_ALL = ["default"] * 6 + ["uniform_str", "uniform_cls", "callable", "spy", "sampler_sub", "const", "center", "corner",
                              "normal", "gaussian", "exponential", "poisson", "cluster", "mixed", "gaussian_mixture",
-                             "mix_distribution", "mix_multi_distributions"]
+                             "mix_distribution", "mix_multi_distributions", "cluster", "mixed", "mix_distribution"]
 LOC_BOUNDED = [k for k in LOC_ALL if k not in UNBOUNDED]
 DEPOT_ALL = ["none"] * 6 + ["uniform_str", "uniform_cls", "spy", "sampler_sub", "const", "center", "corner", "normal", "gaussian"]
 DEPOT_BOUNDED = [k for k in DEPOT_ALL if k not in UNBOUNDED]
